@@ -13,14 +13,17 @@ VARIANTS = {"quick": ["O1"], "thorough": ["O1", "asan"]}
 AXIOMS_ALLOWED = runner.REAL_AXIOMS     # only the log-sum-exp theorems (over R) use them; the matrix theorems print "Closed"
 CLOSED_THEOREMS = ["C15_det_lemma", "C15_capacitance_invertible", "C15_woodbury", "C15_blockdiag_entries", "C15_blockdiag_inverse",
                    "C15_blockdiag_det", "C15_uvr_det", "C15_uvr_eq_direct", "C15_uvr_eq_direct_per_block", "C15_uvr_eq_direct_shared",
+                   "C15_sym_factor_assembled_spd", "C15_uvr_eq_direct_sym_factor",
                    "C15_uvr_capacitance_invertible", "C15_density_uvr_exp", "C15_density_exp", "C15_batch_lengths", "C15_logdensity_def"]
 REQUIRED_THEOREMS = CLOSED_THEOREMS + ["C15_lse_spec", "C15_lse_shift", "C15_lse_max_is_entry", "C15_lse_no_overflow", "C15_lse_neginf",
                                        "C15_lse_all_neginf_is_nan"]
 COQ_PREFIXES = ["C15", "C19"]           # C15_ROps / C15_RProofs import the shared real instance ROps of C19_ROps.v
 RULE = ("cases from one seeded stream. uvr: num_blocks 1..4, block_size with d = num_blocks*block_size <= 8, batch 1..5, k 1..4, "
-        "R shared (one block) or per block (SPD blocks, cond <= 1e3), V = U^T / W U^T (W symmetric) / general (S not symmetric, symmetric part PD) / zero, "
-        "assembled S with cond <= 1e6, evaluation points near the mean and far away; lse: length 1..50, entries in [-1e4,1e4] "
-        "(uniform / clustered at +-1e4 / equal / with -inf / all -inf), dyadic so that the shift is exact. "
+        "R shared (one block) or per block (SPD blocks, cond <= 1e5), V = U^T / W U^T (W symmetric) / general (S not symmetric, symmetric part PD) / zero, "
+        "assembled S with cond <= 1e6, evaluation points near the mean and far away (thorough: 15% of the cases with d up to 12, up to 5 blocks, k up to 6); "
+        "every call repeated with the arguments passed as blocks/segments of larger buffers; lse: length 1..50, entries in [-1e4,1e4] "
+        "(uniform / clustered at +-1e4 / equal / largest magnitude negative / with -inf / all -inf), dyadic so that the shift is exact, "
+        "also as row vector, strided row, matrix and expression argument. "
         "non-trivial = uvr with num_blocks >= 2 or shared encoding, lse with length >= 2; "
         "distinct by (d, block_size, k, encoding, V kind, batch>1, cond decade) resp. (lse kind, length bucket, has -inf)")
 TRUSTED_BASE = ["Coq 8.16.1 kernel (coqc)",
@@ -29,12 +32,14 @@ TRUSTED_BASE = ["Coq 8.16.1 kernel (coqc)",
                 "extraction (ExtrOcamlBasic only) and ocaml/float_ops.ml, ocaml/drv_C15.ml, ocaml/caseio.ml",
                 "ListOps list instance of MatOps (structural operations and Gauss-Jordan inverse/determinant, unproved)",
                 "cpp/h_C15.cpp harness; tolerances derived from the constructed conditioning (cond R, cond(I+V R^-1 U), cond S, size of the cancelling Woodbury terms)",
+                "EOps (coq/C15_ROps.v): the extension of the reals by -inf with the IEEE meaning of + - < exp ln stated there (Bad = +inf/NaN, absorbing)",
                 "numpy float64/longdouble reference values in the oracle",
                 "correspondence is sampled: agreement is established on the generated cases only",
                 "IEEE rounding is not modelled (theorems over an exact real field / R)"]
 ASSUMPTIONS = ["Eigen inverse()/determinant() behave as matrix inverse/determinant up to rounding (checked against the model's Gauss-Jordan and numpy on every case)",
                "std::pow(x, n) for the integer block count is the n-fold product up to rounding (checked on every shared-R case)",
-               "std::log/std::exp are the real ln/exp up to rounding; exp(-inf) = 0, -inf - finite = -inf (IEEE), checked on the -inf cases"]
+               "std::log/std::exp are the real ln/exp up to rounding; exp(-inf) = 0, -inf - finite = -inf (IEEE), checked on the -inf cases",
+               "densities are compared with a relative tolerance plus the absolute floor DBL_MIN: Eigen's vectorised exp returns 5.56e-309 instead of 0 below -709.4"]
 
 COUNTS = {"quick": (260, 160), "thorough": (12000, 8000)}
 EPS = 2.220446049250313e-16
@@ -53,23 +58,26 @@ def blockdiag(blocks):
     return out
 
 
-def gen_uvr(rng, cid):
+def gen_uvr(rng, cid, big=False):
     while True:
-        nb = rng.randint(1, 4)
-        bs = rng.randint(1, 8 // nb)
+        if big:       # beyond the stated ranges (thorough tier only): d up to 12, k up to 6
+            nb = rng.randint(1, 5); bs = rng.randint(1, 12 // nb); k = rng.randint(1, 6)
+        else:
+            nb = rng.randint(1, 4); bs = rng.randint(1, 8 // nb); k = rng.randint(1, 4)
         d = nb * bs
-        b = rng.randint(1, 5); k = rng.randint(1, 4)
+        b = rng.randint(1, 5)
         enc = rng.choice(["shared", "perblock"])
         lo = 10 ** rng.uniform(-2, 1)
+        cmax = rng.choice([1, 3, 5])
         if enc == "shared":
-            B, _ = gen.spd(rng, bs, 10 ** rng.uniform(0, 3), lo)
+            B, _ = gen.spd(rng, bs, 10 ** rng.uniform(0, cmax), lo)
             blocks = [B] * nb; R = B
         else:
-            blocks = [gen.spd(rng, bs, 10 ** rng.uniform(0, 3), lo * 10 ** rng.uniform(-0.5, 0.5))[0] for _ in range(nb)]
+            blocks = [gen.spd(rng, bs, 10 ** rng.uniform(0, cmax), lo * 10 ** rng.uniform(-0.5, 0.5))[0] for _ in range(nb)]
             R = np.hstack(blocks)
         Rd = blockdiag(blocks)
         vkind = rng.choice(["UT", "UT", "WUT", "general", "general", "zero"])
-        uscale = math.sqrt(lo) * 10 ** rng.uniform(-1, 1)
+        uscale = math.sqrt(lo) * 10 ** rng.uniform(-1, 1.5)
         U = gen.matrix(rng, d, k, uscale)
         if vkind == "UT":
             V = U.T.copy()
@@ -110,9 +118,13 @@ def gen_uvr(rng, cid):
         Wd = Ri @ U @ np.linalg.solve(Mc, V @ Ri)
         q2 = float(np.max(np.abs(np.einsum("ij,ij->j", diff, Wd @ diff))))
         q = float(np.max(np.abs(np.einsum("ij,ij->j", diff, np.linalg.solve(S, diff)))))
+        # norm-wise sizes (for a non-symmetric S the quadratic forms can be much smaller than their terms)
+        qn = float(np.max(np.sum(diff * diff, axis=0)) * np.linalg.norm(np.linalg.inv(S), 2))
+        q2n = float(np.max(np.linalg.norm(U.T @ Ri.T @ diff, axis=0) * np.linalg.norm(V @ Ri @ diff, axis=0))
+                    * np.linalg.norm(np.linalg.inv(Mc), 2))
         c = caseio.Case(cid, "uvr", {"d": d, "b": b, "k": k, "bs": bs, "nb": nb, "enc": enc, "vkind": vkind,
                                       "condS": "%.4g" % condS, "condR": "%.4g" % condR, "condM": "%.4g" % condM,
-                                      "q1": "%.4g" % q1, "q2": "%.4g" % q2, "q": "%.4g" % q, "far": far})
+                                      "q1": "%.4g" % q1, "q2": "%.4g" % max(q2, q2n), "q": "%.4g" % q, "qn": "%.4g" % qn, "far": far})
         c.mat_shape("input", d, b, inp).mat_shape("mean", d, 1, mean).mat_shape("U", d, k, U).mat_shape("V", k, d, V)
         c.mat_shape("R", bs, R.shape[1], R).mat_shape("cov", d, d, S)
         return c
@@ -158,7 +170,7 @@ def gen_lse(rng, cid):
 
 def generate(rng, tier):
     nu, nl = COUNTS[tier]
-    cases = [gen_uvr(rng, i) for i in range(nu)]
+    cases = [gen_uvr(rng, i, tier == "thorough" and rng.random() < 0.15) for i in range(nu)]
     cases += [gen_lse(rng, nu + i) for i in range(nl)]
     return cases
 
@@ -177,8 +189,8 @@ def nontrivial(c):
 # ----------------------------------------------------------------------------- tolerances
 
 def tol_direct(c, ldmag):
-    condS, q = float(c.meta["condS"]), float(c.meta["q"])
-    return 8 * EPS * (condS * (q + 1.0) + ldmag + 10.0)
+    condS, q, qn = float(c.meta["condS"]), float(c.meta["q"]), float(c.meta["qn"])
+    return 8 * EPS * (condS * (q + 1.0) + qn + ldmag + 10.0)
 
 
 def tol_uvr(c, ldmag):
@@ -261,6 +273,11 @@ def oracle(c, impl, model):
             tols = 8 * EPS * (abs(r) + abs(sh) + abs(r + sh) + 1.0)
             if abs(rs - (r + sh)) > tols:
                 v.append(("C15:lse-shift-law:%s" % kind, "lse(x + c) = %.17g, lse(x) + c = %.17g" % (rs, r + sh)))
+        if r is not None and math.isfinite(r):
+            for nm, want in (("lse_row", r), ("lse_strided", r), ("lse_expr", rs)):
+                a = impl.get(nm)
+                if a is None or want is None or not (math.isfinite(a) and abs(a - want) <= lse_tol(c, want)):
+                    v.append(("C15:lse-argument-form:%s" % nm, "%s = %r, plain vector argument gives %r" % (nm, a, want)))
         if impl.has("lse_mat") and r is not None and math.isfinite(r):
             rm = impl.get("lse_mat")
             if not (math.isfinite(rm) and abs(rm - r) <= tol):
@@ -311,6 +328,12 @@ def oracle(c, impl, model):
             v.append(("C15:direct-not-extracted-definition:%s" % tag, "max diff %.3g > %.3g" % (caseio.maxdiff(ld, sl), 2 * td)))
         if np.all(np.isfinite(ldu)) and not close_log(ldu, sl, td + tu):
             v.append(("C15:uvr-not-extracted-definition:%s" % tag, "max diff %.3g > %.3g" % (caseio.maxdiff(ldu, sl), td + tu)))
+    # arguments passed as blocks / segments of larger buffers: same values
+    for nm, plain, tol in (("ld_views", ld, td), ("ldu_views", ldu, tu)):
+        a = impl.get(nm)
+        if a is None or a.shape != plain.shape or (np.all(np.isfinite(plain)) and not close_log(a, plain, tol)):
+            v.append(("C15:view-arguments:%s" % nm, "called with blocks of larger matrices: %s, with plain matrices: %s"
+                      % (None if a is None else a.reshape(-1)[:3], plain.reshape(-1)[:3])))
     # density = exp(log-density): the same libm exp on the same double, so bit-for-bit up to one rounding of exp
     for nm, dens, lg in (("direct", dn, ld), ("uvr", dnu, ldu)):
         if np.all(np.isfinite(lg)):
@@ -318,6 +341,12 @@ def oracle(c, impl, model):
             if not bool(np.all(np.abs(dens - e) <= 4 * EPS * e + DBL_MIN)):
                 v.append(("C15:density-not-exp-logdensity:%s" % nm, "density %s, exp(log-density) %s" % (dens.reshape(-1)[:3], e.reshape(-1)[:3])))
     return v
+
+
+def on_crash(c, info, model):
+    what = "%s:%s:V=%s" % (c.kind, c.meta.get("enc"), c.meta.get("vkind")) if c.kind == "uvr" else "lse:%s" % c.meta.get("lkind")
+    return [("C15:%s:%s:%s" % (info["kind"], runner.first_entry(info["stderr"]), what),
+             "implementation ended abnormally (%s, rc=%s): %s" % (info["kind"], info["rc"], info["stderr"][-300:]))]
 
 
 def histogram(cases):
@@ -340,7 +369,7 @@ LEVEL_TEXT = ("Proof: the model of utils::multivariate_gaussian_log_density(_UVR
               "shared/per-block branch, block-by-block products, Woodbury quadratic form, det R as pow or running product, determinant lemma) is proved, "
               "for every real field, every number of blocks, block size, k, batch, to return per evaluation point the direct log-density "
               "-1/2(d ln 2pi + ln det S + delta^T S^-1 delta) of the assembled S = U V + blockdiag(R), given invertible blocks and invertible S "
-              "(invertibility of I + V R^-1 U is derived); density = exp(log-density). Over R: log_sum_exp = ln sum exp, the shift law, "
+              "(invertibility of I + V R^-1 U is derived; for V = U^T and SPD blocks every premise is derived); density = exp(log-density). Over R: log_sum_exp = ln sum exp, the shift law, "
               "no overflow (shifted exponents <= 0, one = 0, 1 <= sum <= n), and the -inf extension. The model is tied to the code by running the "
               "extracted model and the library on the same generated cases.")
 LEVEL_NOTE = ("Trusted: Coq kernel, MathComp, Reals axioms (lse only), extraction + float driver, list instance of the matrix interface, harness and tolerances; "
